@@ -321,8 +321,13 @@ Definition n_bias_items (c : cfg) (t : nat) : nat := length (smp_bias_work c t).
 (* error codes of the items are OR-ed into one word (atomic |= in smp_loop, locked |= in set_error_bits) *)
 Definition or_codes (codes : list Z) : Z := fold_left Z.lor codes 0.
 
-(* log depth: colvarmodule::depth() keeps one counter per thread; smp_loop raises the counter of the
-   calling thread (thread 0) only.  Depth at which a message of a component is logged:
-   serial: calc_colvars +1, calc_cvc_values +1.  SMP, thread th: smp_loop +1 on thread 0 only, calc_cvc_values +1 *)
+(* log depth: colvarmodule::depth() keeps one counter per thread ([bases th] = counter of thread th when
+   the loop starts).  Depth at which a message of a component is logged:
+   serial: calc_colvars +1, calc_cvc_values +1.
+   SMP (after the repair `fix: smp_loop raises the log depth of every thread that runs items`): thread th
+   raises its own counter in smp_loop (+1), then calc_cvc_values +1.
+   Before the repair smp_loop raised the counter of the calling thread (thread 0) only. *)
 Definition depth_serial (base : nat) : nat := S (S base).
-Definition depth_smp (base : nat) (th : nat) : nat := if Nat.eqb th 0 then S (S base) else S base.
+Definition depth_smp (bases : nat -> nat) (th : nat) : nat := S (S (bases th)).
+Definition depth_smp_unfixed (bases : nat -> nat) (th : nat) : nat :=
+  if Nat.eqb th 0%nat then S (S (bases 0%nat)) else S (bases th).
